@@ -31,6 +31,9 @@ ActionAlphabet ==
        [] ActionAlphabetId = "action" -> pads \cup {b \in blocks : b.duration = 1} \cup {c \in cancels : c.timer # "Internal"}
        [] ActionAlphabetId = "timer"  -> timers \cup cancels
        [] ActionAlphabetId = "all"    -> pads \cup blocks \cup timers \cup cancels
+       \* a narrow alphabet for deep scripts: one non-bypassable block, replacing paddings
+       [] ActionAlphabetId = "replace" -> {b \in blocks : ~b.bypass /\ ~b.replace /\ b.timeout = 0 /\ b.duration = 3}
+                                          \cup {p \in pads : p.replace /\ p.timeout \in {0, 1}}
        [] ActionAlphabetId = "none"   -> {}
 
 \* the bounded framework oracle
